@@ -30,7 +30,7 @@ HDR = """##fileformat=VCFv4.3
 ##FORMAT=<ID=ACP,Number=R,Type=Float,Description="x">
 ##FORMAT=<ID=AFP,Number=R,Type=Float,Description="x">
 ##FORMAT=<ID=SNVDP,Number=.,Type=Integer,Description="x">
-#CHROM	POS	ID	REF	ALT	QUAL	FILTER	INFO	FORMAT	S1	S2
+#CHROM	POS	ID	REF	ALT	QUAL	FILTER	INFO	FORMAT	Sz	Sa
 """
 
 
